@@ -103,11 +103,15 @@ def natives(I):
         from .interp import Opaque
         return Opaque(tag, deps)
 
+    def ghost_events():
+        # [(tag, method, args tuple, kwargs dict)] of the calls on external / opaque objects so far
+        return [(t, m, tuple(a), dict(k)) for (t, m, a, k) in I.events]
+
     def uf_str(name, arg):
         from .values import to_z3_string
         F = z3.Function(name, z3.StringSort(), z3.StringSort())
         return SStr([('sym', F(to_z3_string(arg)))])
 
     table = dict(havoc_bool=havoc_bool, havoc_int=havoc_int, havoc_enum=havoc_enum, havoc_str=havoc_str,
-                 ghost_set=ghost_set, ghost_get=ghost_get, symbolic_run=symbolic_run, uf_str=uf_str, opaque=opaque, ite=ite, implies=implies, conj=conj, disj=disj, iff=iff, forall=forall, exists=exists, members=members)
+                 ghost_set=ghost_set, ghost_get=ghost_get, symbolic_run=symbolic_run, uf_str=uf_str, opaque=opaque, ghost_events=ghost_events, ite=ite, implies=implies, conj=conj, disj=disj, iff=iff, forall=forall, exists=exists, members=members)
     return {f'pyvc.ghost.{k}': NativeFn(v, k) for k, v in table.items()}
